@@ -433,7 +433,8 @@ def register(gen, T):
                     if rr != "true":
                         for part in [x.strip() for x in rr.split("&&")]:
                             cm = re.fullmatch(r'([a-z_]+)\(([a-z_]+)\)', part)
-                            am = re.fullmatch(r'([a-z_]+)\.iter\(\)\.all\(([a-z_]+)\)', part)
+                            am = re.fullmatch(r'([a-z_]+)\.iter\(\)\.all\(([a-z_]+)\)', part) or \
+                                re.fullmatch(r'([a-z_]+)\.iter\(\)\.all\(\|slot\| ([a-z_]+)\(&slot\.expr\)\)', part)
                             if cm and cm.group(2) in binders and cm.group(1) == self_name:
                                 mine.append(binders.index(cm.group(2)))
                             elif cm and cm.group(2) in binders and other_name and cm.group(1) == other_name:
@@ -448,8 +449,8 @@ def register(gen, T):
             return rows
 
         def parse_float_assign(r):
-            """the RemainderAssignment arm since fix 92d66eb: on a floating-point first operand `a op= b` becomes
-            `a = inner_op(a, b)` through generate_expression, provided `a` is a plain place"""
+            """the RemainderAssignment arm since fixes 92d66eb + 35faaaa: on a floating-point first operand `a op= b` becomes
+            `a = inner_op(a, b)` through generate_expression, provided `a` is a plain place and `b` is free of writes"""
             head = ("{ let lhs_ety = exprs[0].get_type(context.module).unwrap(); "
                     "let lhs_ty = context.module.type_registry.remove_modifier(lhs_ety.0); "
                     "match context.module.type_registry.extract_scalar(lhs_ty) { ")
@@ -470,8 +471,15 @@ def register(gen, T):
             b2 = matching(rest, a2)
             index_text = rest[a2 + 1:b2]
             tail = rest[b2 + 1:].strip()
+            m2b = re.match(r'fn is_free_of_writes\(expr: &ir::Expression\) -> bool \{', tail)
+            if not m2b:
+                return None
+            a3 = m2b.end() - 1
+            b3 = matching(tail, a3)
+            writes_text = tail[a3 + 1:b3]
+            tail = tail[b3 + 1:].strip()
             m3 = re.fullmatch(
-                r'if !is_plain_place\(&exprs\[0\]\) \{ return Err\(GenerateError::([A-Za-z]+)\); \} '
+                r'if !is_plain_place\(&exprs\[0\]\) \|\| !is_free_of_writes\(&exprs\[1\]\) \{ return Err\(GenerateError::([A-Za-z]+)\); \} '
                 r'let value = ir::Expression::IntrinsicOp\(([A-Za-z]+), exprs\.to_vec\(\)\); '
                 r'let assignment = ir::Expression::IntrinsicOp\( ([A-Za-z]+), Vec::from\(\[exprs\[0\]\.clone\(\), value\]\), \); '
                 r'return generate_expression\(&assignment, context\); \} '
@@ -482,7 +490,7 @@ def register(gen, T):
             if any(x not in scalars for x in ss) or inner not in iops or outer not in iops or bop not in bops:
                 raise ExtractError(f"msl generate_intrinsic_op: {tail[:80]!r}")
             return ss, err, outer, inner, bop, parse_place_fn(place_text, "is_plain_place", "is_plain_index"), \
-                parse_place_fn(index_text, "is_plain_index", None)
+                parse_place_fn(index_text, "is_plain_index", None), parse_place_fn(writes_text, "is_free_of_writes", None)
         for pats, guard, result in match_arms(arms_text):
             if guard is not None:
                 raise ExtractError("msl generate_intrinsic_op: guard unsupported")
@@ -508,10 +516,10 @@ def register(gen, T):
                     raise ExtractError(f"msl generate_intrinsic_op: {r[:60]!r}")
                 val = f".floatCall {lean_str(mf.group(2))} {T.lean_list(lean_str(x) for x in ss)} .{mf.group(3)}"
             elif parse_float_assign(r):
-                ss, err, outer, inner, bop, prow, irow = parse_float_assign(r)
+                ss, err, outer, inner, bop, prow, irow, wrow = parse_float_assign(r)
                 if place_guard is not None:
                     raise ExtractError("msl generate_intrinsic_op: two arms with a plain-place test")
-                place_guard = (prow, irow)
+                place_guard = (prow, irow, wrow)
                 val = f".floatAssign {T.lean_list(lean_str(x) for x in ss)} {lean_str(err)} .{outer} .{inner} .{bop}"
             elif r.startswith("Form::Special("):
                 val = ".special"
@@ -530,7 +538,8 @@ def register(gen, T):
             raise ExtractError(f"msl generate_intrinsic_op: no arm for {missing}")
         out.append("def mslOpForm : IntrinsicOp → MForm\n" + "".join(f"  | .{o} => {seen[o]}\n" for o in iops) + "\n")
         out.append("/-- the variants of `ir::IntrinsicOp` in declaration order (operator payloads of constructor trees are indices into it) -/\n"
-                   "def intrinsicOpNames : List String := " + T.lean_list(lean_str(o) for o in iops) + "\n\n")
+                   "def intrinsicOpNames : List String := " + T.lean_list(lean_str(o) for o in iops) + "\n"
+                   "def intrinsicOpIdx : IntrinsicOp → Nat\n" + "".join(f"  | .{o} => {k}\n" for k, o in enumerate(iops)) + "\n")
         out.append("/-- one accepting arm of a local test `fn(expr: &ir::Expression) -> bool` of the floating-point `%=` arm: constructor,\n"
                    "number of fields in the pattern, the operators the pattern allows at field 0 (`[]` = no operator field), the `Box` fields\n"
                    "handed to the test itself, the `Box` fields handed to the other test (`is_plain_index` from `is_plain_place`), the `Vec`\n"
@@ -543,11 +552,14 @@ def register(gen, T):
                 f"  ⟨{lean_str(c)}, {a}, {T.lean_list(lean_str(x) for x in ops)}, [{', '.join(map(str, m_))}], [{', '.join(map(str, t_))}], "
                 f"[{', '.join(map(str, al))}]⟩" for c, a, ops, m_, t_, al in rows) + "\n]"
         if place_guard is None:
-            place_guard = ([], [])
+            place_guard = ([], [], [])
         out.append("/-- `is_plain_place`: the test on the target of a floating-point `%=`, which is written twice (`a = fmod(a, b)`) -/\n"
                    "def remAssignPlaceGuard : List PlaceRow := " + rows_text(place_guard[0]) + "\n"
                    "/-- `is_plain_index`: the test `is_plain_place` applies to the index of a subscript -/\n"
-                   "def remAssignIndexGuard : List PlaceRow := " + rows_text(place_guard[1]) + "\n\n")
+                   "def remAssignIndexGuard : List PlaceRow := " + rows_text(place_guard[1]) + "\n"
+                   "/-- `is_free_of_writes` (fix 35faaaa): the test on the right operand, which `a = fmod(a, b)` evaluates AFTER the target is\n"
+                   "read while `a %= b` evaluates it before -/\n"
+                   "def remAssignWritesGuard : List PlaceRow := " + rows_text(place_guard[2]) + "\n\n")
         scrut2, arms2, _ = first_match(body, r'^form$', end)
         shape = {}
         for pats, guard, result in match_arms(arms2):
